@@ -804,17 +804,25 @@ def merge_double_ended_times(
         DataStore object representing the backward measurement channel with
         only times for which there is also a ds_fw measurement
     """
+
+    def channel_number(channel):
+        # Channel ids are stored as int or str ("1", "channel 1"). Compare them
+        # numerically, as strings "10" would sort before "2".
+        digits = "".join(c for c in str(channel) if c.isdigit())
+        return int(digits) if digits else channel
+
     if "forward channel" in ds_fw.attrs and "forward channel" in ds_bw.attrs:
-        assert (
-            ds_fw.attrs["forward channel"] < ds_bw.attrs["forward channel"]
+        assert channel_number(ds_fw.attrs["forward channel"]) < channel_number(
+            ds_bw.attrs["forward channel"]
         ), "ds_fw and ds_bw are swapped"
     elif (
         "forwardMeasurementChannel" in ds_fw.attrs
         and "forwardMeasurementChannel" in ds_bw.attrs
     ):
-        assert (
+        assert channel_number(
             ds_fw.attrs["forwardMeasurementChannel"]
-            < ds_bw.attrs["forwardMeasurementChannel"]
+        ) < channel_number(
+            ds_bw.attrs["forwardMeasurementChannel"]
         ), "ds_fw and ds_bw are swapped"
 
     # Are all dt's within 1.5 seconds from one another?
